@@ -54,6 +54,7 @@ WHAT = {
  'bytes member next to a bool, 0 or 1 member': ("C02", "strict load('YWI=', Literal[b'ab', 1]) rejected although dump(b'ab') is 'YWI=' and the lax loader accepts it: the typed strict branch returned before the bytes wrapper; also breaks the C01 round trip (litenum_load_bytes_1 di=16, litenum_rt_bytes_1; reported by a seed agent on the clean tree)"),
  'only equal to a Literal case': ("C02", "dump(Decimal(200), Union[Literal[200, 300], Decimal]) -> Decimal('200') instead of '200' (membership by ==; also Fraction(1), an IntEnum member, 1.0); Decimal('sNaN') -> InvalidOperation (dump_union_literal_lit_dec di=5 / di=10; reported by a seed agent on the clean tree)"),
  'renamed members whose value equals a name key': ("C18", "enum_by_name(SE, map={'b': 'bee'}) with class SE(str, Enum): a = 'b'; b = 'c': both members dumped as 'bee', load(dump(SE.a)) is SE.b (member looked up in map by ==/hash) (enum_rt_ECross_name_map_cross mi=0; reported by a seed agent on the clean tree)"),
+ "inherited __orig_bases__": ("C16", "class Mid(Root[int], Generic[T]): x: List[T]; class Child(Mid): pass -> load({'x': 1}, Child) accepted, {'x': ['a']} rejected (grandparent's binding replaced the overriding annotation); class Child(Root) with Root bare -> no loader (x stays ~T) (case_OBPlainChild, case_OBBareChild, case_OBBoundChild, creation; reported by a seed agent on the clean tree)"),
 }
 WHAT.update(json.load(open('/verif/tools/fixed_extra.json')) if __import__('os').path.exists('/verif/tools/fixed_extra.json') else {})
 log = subprocess.run(["git", "-C", "/repo", "log", "--format=%h %s"], capture_output=True, text=True).stdout.splitlines()
